@@ -2,6 +2,7 @@ import ComposeVerif.Lemmas.Extends
 import ComposeVerif.Lemmas.ExtendsFuel
 import ComposeVerif.Lemmas.ExtendsComplete
 import ComposeVerif.Neg.C05
+import ComposeVerif.Model.ExtendsMerge
 /-!
 # C05 — extends yields base-then-local override, order-independent, cycle-safe
 
@@ -178,6 +179,77 @@ theorem extends_terminates {E : Env} (hE : FuelFree E) {order : List String} {di
       exact h hs
   · simp
 
+/-- the environment never panics: neither the merge step nor the loading of an extended file
+(C01/C04 own those panics; with the C04 merge model the special mergers do panic on shapes the schema
+would reject) -/
+def PanicFree (E : Env) : Prop :=
+  (∀ b svc s, E.extend b svc ≠ .panic s) ∧ (∀ f s, ¬ fsPanics E.fs f s)
+
+theorem PanicFree.fuelFree {E : Env} (h : PanicFree E) : FuelFree E :=
+  ⟨fun b s => h.1 b s fuelMark, fun f s hf _ => h.2 f s hf⟩
+
+/-- **accepted or an error, never a crash, never a hang**: in a panic-free environment `ApplyExtends`
+returns normally, with a result or with an error — in every visit order, for every document. -/
+theorem applyExtends_ok_or_err {E : Env} (hp : PanicFree E) {order : List String} {dict : KVs}
+    (hord : ∀ S, lookup "services" dict = some (.map S) → Visits order S) :
+    (∃ out, applyExtendsOrd E order dict = .ok out) ∨ ∃ c, applyExtendsOrd E order dict = .err c := by
+  cases hr : applyExtendsOrd E order dict with
+  | ok out => exact Or.inl ⟨out, rfl⟩
+  | err c => exact Or.inr ⟨c, rfl⟩
+  | panic s =>
+    exfalso
+    have hne := extends_terminates hp.fuelFree hord
+    unfold applyExtendsOrd at hr
+    split at hr
+    · cases hr
+    · rename_i S hS
+      split at hr
+      · cases hr
+      · cases hr
+      · rename_i s' hs
+        injection hr with hr
+        subst hr
+        rcases applyAll_panic_src E _ _ _ _ hs with h | ⟨b, svc, h⟩ | ⟨f, h⟩
+        · subst h
+          apply hne
+          simp [applyExtendsOrd, hS, hs]
+        · exact hp.1 b svc _ h
+        · exact hp.2 f _ h
+    · cases hr
+
+/-- **cyclic chain ⇒ error** (not merely "not accepted") -/
+theorem cycle_is_error {E : Env} (hp : PanicFree E) {order : List String} {dict S : KVs} {n : String}
+    (hS : lookup "services" dict = some (.map S)) (hnn : NoNull S) (hfs : NoNullFS E)
+    (hord : Visits order S) (hn : lookup n S ≠ none) (hc : Cyclic E (S, n)) :
+    ∃ c, applyExtendsOrd E order dict = .err c := by
+  rcases applyExtends_ok_or_err hp (order := order) (dict := dict)
+      (fun S' h' => by rw [hS] at h'; injection h' with h'; injection h' with h'; subst h'; exact hord) with ⟨out, h⟩ | h
+  · exact absurd h (cycle_err hS hnn hfs hord hn hc out)
+  · exact h
+
+/-- **missing base ⇒ error** -/
+theorem missing_base_is_error {E : Env} (hp : PanicFree E) {order : List String} {dict S svc : KVs} {n ref : String} {e : Val}
+    (hS : lookup "services" dict = some (.map S)) (hnn : NoNull S) (hfs : NoNullFS E)
+    (hord : Visits order S) (h1 : lookup n S = some (.map svc)) (h2 : lookup "extends" svc = some e)
+    (h3 : parseExtends e = .ok (ref, none)) (h4 : lookup ref S = none) :
+    ∃ c, applyExtendsOrd E order dict = .err c := by
+  rcases applyExtends_ok_or_err hp (order := order) (dict := dict)
+      (fun S' h' => by rw [hS] at h'; injection h' with h'; injection h' with h'; subst h'; exact hord) with ⟨out, h⟩ | h
+  · exact absurd h (missing_base_err hS hnn hfs hord h1 h2 h3 h4 out)
+  · exact h
+
+/-- **missing file ⇒ error** -/
+theorem missing_file_is_error {E : Env} (hp : PanicFree E) {order : List String} {dict S svc : KVs} {n ref f : String} {e : Val}
+    (hS : lookup "services" dict = some (.map S)) (hnn : NoNull S) (hfs : NoNullFS E)
+    (hord : Visits order S) (h1 : lookup n S = some (.map svc)) (h2 : lookup "extends" svc = some e)
+    (h3 : parseExtends e = .ok (ref, some f))
+    (h4 : fileServices E.fs f = none ∨ ∃ S', fileServices E.fs f = some S' ∧ lookup ref S' = none) :
+    ∃ c, applyExtendsOrd E order dict = .err c := by
+  rcases applyExtends_ok_or_err hp (order := order) (dict := dict)
+      (fun S' h' => by rw [hS] at h'; injection h' with h'; injection h' with h'; subst h'; exact hord) with ⟨out, h⟩ | h
+  · exact absurd h (missing_file_err hS hnn hfs hord h1 h2 h3 h4 out)
+  · exact h
+
 /-- **inherited paths are anchored at the base file.**  The file system hands `ApplyExtends` every
 extended file with its relative paths already resolved against *that file's* directory (`resolve f`);
 a service extending a plain service `ref` of file `f` is therefore `extend` of the base *as resolved
@@ -202,36 +274,100 @@ theorem inherited_paths_anchor {E : Env} {order : List String} {dict out S svc :
     Flat.step h1 h2 h3 hbm (Flat.leaf hb hbe) hm
   rw [hv, hf.functional this]
 
-/-- **acyclic ⇒ accepted (the provable part).**  If every service has a finite chain (`FlatK`:
-all bases and files exist, every merge succeeds) *and the tracker keys recorded along each chain —
-`(referenced file or main file, extending service's name)` — are pairwise distinct*, then
-`ApplyExtends` succeeds in every visit order.  Without the distinctness hypothesis the statement is
-false on the unchanged tree (`Neg.applyExtends_perm_fails`). -/
+/-- acceptance from key-annotated chains: if every service has a finite chain (`FlatK`) whose tracker keys
+`(current file, extending service's name)` are pairwise distinct, `ApplyExtends` succeeds in every visit
+order.  (`acyclic_ok` discharges the distinctness hypothesis.) -/
 theorem acyclic_ok_partial {E : Env} {order : List String} {dict S : KVs}
     (hS : lookup "services" dict = some (.map S)) (hord : Visits order S)
-    (hch : ∀ n, lookup n S ≠ none → ∃ ks v, FlatK E S n ks v ∧ ks.Nodup) :
+    (hch : ∀ n, lookup n S ≠ none → ∃ ks v, FlatK E E.mainFile S n ks v ∧ ks.Nodup) :
     ∃ out, applyExtendsOrd E order dict = .ok out := by
-  have hall : ∀ n ∈ order, ∃ ks v, FlatK E S n ks v ∧ ks.Nodup ∧ ks.length < fuelFor E S := by
+  have hall : ∀ n ∈ order, ∃ ks v, FlatK E E.mainFile S n ks v ∧ ks.Nodup ∧ ks.length < fuelFor E S := by
     intro n hn
     obtain ⟨ks, v, hk, hnd⟩ := hch n ((hord n).mp hn)
     refine ⟨ks, v, hk, hnd, ?_⟩
-    have := nodup_length_le ks _ hnd (hk.keys_sub (KeysSub.self E S))
+    have := nodup_length_le ks _ hnd (hk.keys_sub (by simp [allFiles]) (KeysSub.self E S))
     simp only [fuelFor]; omega
   obtain ⟨R, hR, _⟩ := applyAll_complete E (fuelFor E S) order S S (Inv.refl E S) hall
   exact ⟨Val.insert "services" (.map R) dict, by simp [applyExtendsOrd, hS, hR]⟩
 
-/-- with distinct tracker keys the outcome does not depend on the visit order at all -/
-theorem applyExtends_perm_distinct {E : Env} {order₁ order₂ : List String} {dict S : KVs}
+/-- **acyclic ⇒ accepted** (full strength since `fix: the extends cycle tracker records the file the
+extending service lives in`).  If every service has a flattened form — its chain is finite, all bases and
+files exist, every merge succeeds — `ApplyExtends` succeeds, in every visit order: the cycle tracker never
+reports a cycle that is not there.  `hmain`: no `extends.file` reference is spelled exactly like the main
+file's own (absolute) name — such a reference re-enters the main file and the tracker treats it as such. -/
+theorem acyclic_ok {E : Env} {order : List String} {dict S : KVs}
+    (hS : lookup "services" dict = some (.map S)) (hord : Visits order S)
+    (hmain : fileServices E.fs E.mainFile = none)
+    (hflat : ∀ n, lookup n S ≠ none → ∃ v, Flat E S n v) :
+    ∃ out, applyExtendsOrd E order dict = .ok out := by
+  refine acyclic_ok_partial hS hord (fun n hn => ?_)
+  obtain ⟨v, hv⟩ := hflat n hn
+  obtain ⟨ks, hk⟩ := hv.toK E.mainFile
+  exact ⟨ks, v, hk, hk.nodup (S0 := S) hmain (Or.inl ⟨rfl, rfl⟩)⟩
+
+/-- **order independence** (full strength): if one visit order of the services map is accepted, every
+visit order is accepted, and all of them resolve every service to the same value. -/
+theorem applyExtends_perm {E : Env} {order₁ order₂ : List String} {dict out₁ S : KVs}
     (hS : lookup "services" dict = some (.map S)) (hnn : NoNull S) (hfs : NoNullFS E)
+    (hmain : fileServices E.fs E.mainFile = none)
     (h₁ : Visits order₁ S) (h₂ : Visits order₂ S)
-    (hch : ∀ n, lookup n S ≠ none → ∃ ks v, FlatK E S n ks v ∧ ks.Nodup) :
-    ∃ out₁ out₂ R₁ R₂, applyExtendsOrd E order₁ dict = .ok out₁ ∧ applyExtendsOrd E order₂ dict = .ok out₂ ∧
+    (r₁ : applyExtendsOrd E order₁ dict = .ok out₁) :
+    ∃ out₂ R₁ R₂, applyExtendsOrd E order₂ dict = .ok out₂ ∧
       lookup "services" out₁ = some (.map R₁) ∧ lookup "services" out₂ = some (.map R₂) ∧
       ∀ n, lookup n R₁ = lookup n R₂ := by
-  obtain ⟨out₁, r₁⟩ := acyclic_ok_partial hS h₁ hch
-  obtain ⟨out₂, r₂⟩ := acyclic_ok_partial hS h₂ hch
+  obtain ⟨R, _, hall⟩ := extends_eq_flatten hS hnn hfs h₁ r₁
+  have hflat : ∀ n, lookup n S ≠ none → ∃ v, Flat E S n v := fun n hn => by
+    obtain ⟨v, _, hf⟩ := (hall n).2 hn
+    exact ⟨v, hf⟩
+  obtain ⟨out₂, r₂⟩ := acyclic_ok hS h₂ hmain hflat
   obtain ⟨R₁, R₂, a, b, c⟩ := applyExtends_perm_partial hS hnn hfs h₁ h₂ r₁ r₂
-  exact ⟨out₁, out₂, R₁, R₂, r₁, r₂, a, b, c⟩
+  exact ⟨out₂, R₁, R₂, r₂, a, b, c⟩
+
+/-- … and an order that is rejected is rejected in every order: acceptance itself is order independent -/
+theorem applyExtends_reject_perm {E : Env} {order₁ order₂ : List String} {dict S : KVs}
+    (hS : lookup "services" dict = some (.map S)) (hnn : NoNull S) (hfs : NoNullFS E)
+    (hmain : fileServices E.fs E.mainFile = none)
+    (h₁ : Visits order₁ S) (h₂ : Visits order₂ S)
+    (r₁ : ∀ out, applyExtendsOrd E order₁ dict ≠ .ok out) :
+    ∀ out, applyExtendsOrd E order₂ dict ≠ .ok out := by
+  intro out r₂
+  obtain ⟨out₁, _, _, h, _⟩ := applyExtends_perm hS hnn hfs hmain h₂ h₁ r₂
+  exact r₁ out₁ h
+
+/-! ### the real merge step (`CV.Merge.extendService`, C04's model of `override.ExtendService`) -/
+
+/-- the environment of a real load satisfies the side condition of `extends_terminates` -/
+theorem realEnv_fuelFree (mainFile : String) (fs : FS)
+    (hfs : ∀ f s, fsPanics fs f s → s ≠ fuelMark) : FuelFree (realEnv mainFile fs) := by
+  refine ⟨fun b s h => ?_, hfs⟩
+  simp only [realEnv, mergeExtend] at h
+  split at h
+  · cases h
+  · simp only [Out.panic.injEq] at h
+    exact absurd h (by decide)
+  · cases h
+  · rename_i s' _
+    by_cases hs : s' = fuelMark
+    · simp [hs, fuelMark] at h
+    · simp only [hs, ↓reduceIte, Out.panic.injEq] at h
+
+/-- termination with the real merge step: whatever the files contain, `ApplyExtends` comes back -/
+theorem extends_terminates_real (mainFile : String) (fs : FS)
+    (hfs : ∀ f s, fsPanics fs f s → s ≠ fuelMark) {order : List String} {dict : KVs}
+    (hord : ∀ S, lookup "services" dict = some (.map S) → Visits order S) :
+    applyExtendsOrd (realEnv mainFile fs) order dict ≠ .panic fuelMark :=
+  extends_terminates (realEnv_fuelFree mainFile fs hfs) hord
+
+/-- order independence with the real merge step -/
+theorem applyExtends_perm_real (mainFile : String) (fs : FS) {order₁ order₂ : List String} {dict out₁ S : KVs}
+    (hS : lookup "services" dict = some (.map S)) (hnn : NoNull S) (hfs : NoNullFS (realEnv mainFile fs))
+    (hmain : fileServices fs mainFile = none)
+    (h₁ : Visits order₁ S) (h₂ : Visits order₂ S)
+    (r₁ : applyExtendsOrd (realEnv mainFile fs) order₁ dict = .ok out₁) :
+    ∃ out₂ R₁ R₂, applyExtendsOrd (realEnv mainFile fs) order₂ dict = .ok out₂ ∧
+      lookup "services" out₁ = some (.map R₁) ∧ lookup "services" out₂ = some (.map R₂) ∧
+      ∀ n, lookup n R₁ = lookup n R₂ :=
+  applyExtends_perm hS hnn hfs hmain h₁ h₂ r₁
 
 /-! ## non-vacuity: the hypotheses of the theorems above are satisfiable by a non-trivial input
 (the two-file model of `Neg/C05.lean`, visited in the order that succeeds) -/
@@ -291,31 +427,48 @@ example : ∃ out, applyExtendsOrd Neg.env ["c", "b"] Neg.dict = .ok out := by
   | err c => rw [hx] at h; cases h
   | panic s => rw [hx] at h; cases h
 
+example : PanicFree Neg.env := by
+  constructor
+  · intro b svc s h; cases h
+  · intro f s h
+    obtain ⟨r, h1, h2⟩ := h
+    simp only [Neg.env, fsLookup] at h1
+    split at h1
+    · injection h1 with h1; subst h1; cases h2
+    · cases h1
+
 example : FuelFree Neg.env := by
   constructor
   · intro b s h; cases h
   · intro f s h
-    simp only [Neg.env, fsLookup] at h
-    split at h <;> cases h
+    obtain ⟨r, h1, h2⟩ := h
+    simp only [Neg.env, fsLookup] at h1
+    split at h1
+    · injection h1 with h1; subst h1; cases h2
+    · cases h1
 
 /-- a cyclic chain exists (a service extending itself), so `cycle_err` is not vacuous -/
 example : Cyclic Neg.env ([("a", .map [("extends", .str "a")])], "a") :=
   Or.inl (Reach.one ⟨[("extends", .str "a")], .str "a", none, by simp [Val.lookup], by simp [Val.lookup], rfl,
     by simp [baseMap, Val.lookup]⟩)
 
+/-- the main file's name is not a reference of the file system (hypothesis `hmain`) -/
+example : fileServices Neg.env.fs Neg.env.mainFile = none := by
+  simp [fileServices, fsLookup, Neg.env]
+
 /-- a two-step cross-file chain with distinct tracker keys (hypothesis of `acyclic_ok_partial`) -/
-example : ∃ ks v, FlatK Neg.env
+example : ∃ ks v, FlatK Neg.env Neg.env.mainFile
     [("t", .map [("extends", .map [("service", .str "b"), ("file", .str "o.yaml")])])] "t" ks v ∧ ks.Nodup := by
-  have hd : FlatK Neg.env [("b", .map [("extends", .str "d"), ("cap_add", .str "CAP_BO")]), ("d", .map [("image", .str "id")])]
+  have hd : FlatK Neg.env "o.yaml" [("b", .map [("extends", .str "d"), ("cap_add", .str "CAP_BO")]), ("d", .map [("image", .str "id")])]
       "d" [] (.map [("image", .str "id")]) :=
     FlatK.leaf (by simp [Val.lookup]) (by simp [Val.lookup])
-  have hb := FlatK.step (E := Neg.env) (n := "b") (file := none) (e := .str "d") (ref := "d")
+  have hb := FlatK.step (E := Neg.env) (cf := "o.yaml") (n := "b") (file := none) (e := .str "d") (ref := "d")
     (S := [("b", .map [("extends", .str "d"), ("cap_add", .str "CAP_BO")]), ("d", .map [("image", .str "id")])])
     (S' := [("b", .map [("extends", .str "d"), ("cap_add", .str "CAP_BO")]), ("d", .map [("image", .str "id")])])
     (svc := [("extends", .str "d"), ("cap_add", .str "CAP_BO")])
     (m := [("extends", .str "d"), ("cap_add", .str "CAP_BO")] ++ [("image", .str "id")])
     (by simp [Val.lookup]) (by simp [Val.lookup]) rfl (by simp [baseMap, Val.lookup]) hd rfl
-  have ht := FlatK.step (E := Neg.env) (n := "t") (file := some "o.yaml") (ref := "b")
+  have ht := FlatK.step (E := Neg.env) (cf := Neg.env.mainFile) (n := "t") (file := some "o.yaml") (ref := "b")
     (S := [("t", .map [("extends", .map [("service", .str "b"), ("file", .str "o.yaml")])])])
     (e := .map [("service", .str "b"), ("file", .str "o.yaml")])
     (svc := [("extends", .map [("service", .str "b"), ("file", .str "o.yaml")])])
